@@ -345,7 +345,10 @@ def desugar_match(tree: ast.AST) -> ast.AST:
 
 
 class Program:
+    _UIDS = iter(range(1, 1 << 62))
+
     def __init__(self, root: str) -> None:
+        self.uid = next(Program._UIDS)  # cache key of per-program tables (an address can be reused once a program is freed)
         self.root = os.path.abspath(root)
         self.src_root = os.path.join(self.root, "src")
         self.modules: dict[str, Module] = {}
@@ -948,8 +951,9 @@ class FuncEnv:
     # --- typing
     def type_of(self, expr: ast.AST) -> frozenset:
         key = id(expr)
-        if key in self._cache:
-            return self._cache[key]
+        hit = self._cache.get(key)
+        if hit is not None and hit[0] is expr:
+            return hit[1]
         if key in self._busy:
             return UNKNOWN
         self._busy.add(key)
@@ -957,7 +961,9 @@ class FuncEnv:
             t = self._type_of(expr)
         finally:
             self._busy.discard(key)
-        self._cache[key] = t
+        # the entry holds the node itself: a transient (synthesised) node that is freed must not lend its address,
+        # and with it a stale type, to the next node allocated there
+        self._cache[key] = (expr, t)
         return t
 
     def _elem(self, t: frozenset) -> frozenset:
